@@ -26,7 +26,7 @@ def run(ctx, res):
     inv = panics.Inventory(prog, res, "DEC", panics.load_residue("DEC"))
     cl = inv.run(panics.DEC_ROOTS, assume_for=panics.io_assumptions)
     import bitio, framing
-    bitio.rule_r_width(prog, res)
+    bitio.rule_r_width(prog, res, which=("parse",))
     bitio.rule_p_pre(prog, res)
     bitio.rule_guard_cursor(prog, res, bitio.PARSE, 2)
     m = framing.rules_new(prog, res)
